@@ -643,7 +643,7 @@ func run(c Case, ev *pbt.Ev) error {
 }
 
 func TestProp_Snapshotter(t *testing.T) {
-	pbt.Run(t, pbt.Options{Prop: "C08", Name: "Snapshotter", Quick: 2500, Thorough: 60000, Current: true, Timeout: 120 * time.Second,
+	pbt.Run(t, pbt.Options{Prop: "C08", Name: "Snapshotter", Quick: 2500, Thorough: 35000, Current: true, Timeout: 120 * time.Second,
 		Rule: "rapid: 1-25 snapshotter calls over 8 names: Prepare(key,parent[,target label]) / View / Commit / Mounts / Remove / Cleanup / Update / Close+reopen, sync or async removal, and per call a script for the backend (Mount fails, Check fails for a set of snapshots, Unmount fails) on a recording FileSystem; " +
 			"oracle: history invariants from the statement (target reported as existing => committed, and remote with exactly one live mount on its own fs directory if this call created it; fallback => active, not remote, no mount left; no mounts returned for a chain with a remote snapshot whose check fails; lowerdir = parent chain nearest first; " +
 			"an existing backend mount is unmounted only after its snapshot left Walk and while its directory exists; no directory with a live mount disappears; every remote snapshot keeps its mount; after Cleanup directories == live snapshots and no new-* leftovers; Walk == Stat). " +
